@@ -1,7 +1,6 @@
 SPECIFICATION TraceSpec
 CONSTANTS
-  Orders = {3, 4}
-  WideOrders = {3, 4}
-  SoftOrders = {3, 4}
+  Draws = 1000
+  PlsDraws = 1000
 POSTCONDITION TraceAccepted
 CHECK_DEADLOCK FALSE
